@@ -29,15 +29,15 @@ static unsigned crc_bitwise_zeroed(const uint8_t *p, size_t n, size_t z0)
 }
 
 /* facts gathered while walking the extended headers */
-typedef struct { int n_ccrc; size_t ccrc_off; unsigned ccrc_val; int has_name, has_path, has_perms; unsigned perms; } Ext;
+typedef struct { int n_ccrc; size_t ccrc_off; unsigned ccrc_val; int has_name, has_path, has_perms, has_bar; unsigned perms; } Ext;
 
 static void ext_seen(Ext *e, const uint8_t *B, size_t type_off, size_t data_len)
 {
 	uint8_t t = B[type_off];
 	const uint8_t *d = B + type_off + 1;
 	if (t == 0x00 && data_len >= 2) { ++e->n_ccrc; e->ccrc_off = type_off + 1; e->ccrc_val = r16(d); }
-	else if (t == 0x01 && data_len >= 1) e->has_name = 1;
-	else if (t == 0x02 && data_len >= 1) e->has_path = 1;
+	else if (t == 0x01 && data_len >= 1) { e->has_name = 1; if (memchr(d, '|', data_len)) e->has_bar = 1; }
+	else if (t == 0x02 && data_len >= 1) { e->has_path = 1; if (memchr(d, '|', data_len)) e->has_bar = 1; }
 	else if (t == 0x50 && data_len >= 2) { e->has_perms = 1; e->perms = r16(d); }
 	/* an OS-9 header (0xcc) is mapped to Unix permission bits only after the entry has been classified, so it has no say in
 	 * whether a 0x50 header made this a symbolic link */
@@ -64,6 +64,7 @@ int ref_must_reject(const uint8_t *B, size_t n)
 			uint8_t c = B[22 + i];
 			if (c == 0) break;
 			inhdr_name = 1;
+			if (c == '|') e.has_bar = 1;
 			if (c == '/' || c == '\\') inhdr_path = 1;
 		}
 		if (namelen > 0) inhdr_name = 1;   /* even an empty C string is a (non-NULL) name */
@@ -139,7 +140,9 @@ int ref_must_reject(const uint8_t *B, size_t n)
 		}
 	}
 	if (is_dir) {
-		int maybe_symlink = e.has_perms == 1 && (e.perms & 0170000) == 0120000;
+		/* a symbolic link is stored as 'name|target'; an entry with link mode bits but no '|' anywhere in its name or path cannot be
+		 * one, so it is a plain directory entry and needs a path */
+		int maybe_symlink = e.has_perms == 1 && (e.perms & 0170000) == 0120000 && e.has_bar;
 		if (!maybe_symlink && !inhdr_path && !e.has_path) return 12;
 	}
 	return 0;
